@@ -46,6 +46,21 @@ CHECKS = {
  "C14": ("p2v-inproc", "exhaustive encode/decode round trip over every opcode and operand value; decoder walk of generated programs' bytecode; programs constructed at, below and above each encoding limit",
          "All 17.4 million (opcode, operands) combinations round-trip through make/read_operands; generated programs' bytecode is walked with the decoder (valid opcodes, jump targets on instruction boundaries, constant indices in range); limit programs for constants, jump targets (8 constructs), locals, call arguments, captured variables and REPL-accumulated constants must be rejected above the limit and behave correctly at/below it.",
          "global-index and array/map-literal limit programs take minutes to compile and run in the thorough tier only", "DESIGN.md §4 C14"),
+ "C15": ("p2v-inproc", "proptest structure-aware frame generator x random read-only access histories; identity oracle on the serialised packet (bytes in = bytes out), truncation sweeps at every length, same identity through pcap_write / write into scratch files",
+         "Frames of every supported layer stack (incl. VLAN/QinQ, IPv4 and TCP options, IPv6-in-IPv4, truncated and corrupted frames) are wrapped in a packet through a hook constructor; a generated history of read-only accesses ($n, named layers, fields, payload, str()) runs through the real pipeline and the packet is then serialised in-process and through pcap_write/write: the bytes must equal record header + captured bytes, and no access may crash.",
+         "needs hook PcapPacket::verif_new; filter-mode output of untouched packets is additionally covered end to end under C20", "DESIGN.md §4 C15"),
+ "C16": ("p2v-inproc", "per-field value sweeps and exhaustive dispatch-field enumeration (65536 EtherTypes, 256 protocols / next headers) over generated frames; differential against a reference bit-offset/width table and reference layer dispatch",
+         "Every readable property of the Ethernet, VLAN, IPv4, IPv6, TCP and UDP objects is read from frames in which the field takes all (<= 8 bits) or boundary + random values with random surrounding bits and compared with the reference extraction; $n and the named layer properties must descend exactly into the layer the dispatch field selects; random structure-aware frames are read in full.",
+         "reference table = DESIGN.md Appendix B (RFC 791/8200/9293/768, IEEE 802.1Q); TCP flags with non-zero reserved bits accept 8/9/12-bit readings", "DESIGN.md §4 C16, Appendix B"),
+ "C17": ("p2v-inproc", "exhaustive (<= 12-bit fields) / boundary + random value sweeps per writable field over generated frames, proptest assignment histories; oracle = reference bit setter on the captured bytes + serialise-and-reparse round trip",
+         "For every writable property x in-range values x frames of 8 stacks the script assigns and reads back; the serialised packet must equal the original with only the field's bit range replaced, and a packet rebuilt from those bytes must read every scalar property as the reference predicts. Invalid values must raise with the packet unchanged or be stored modulo 2^w with everything else unchanged. Histories of 2..8 assignments across layers; record fields; read-only version.",
+         "payload / inner-layer reads after assigning a structural field (ihl, dataoff, totlen, len, type, proto, nextheader) are don't-care", "DESIGN.md §4 C17"),
+ "C18": ("p2v-inproc", "bounded-exhaustive IPv6 compression shapes x case x digit style, boundary + random MAC/IPv4/IPv6 addresses, named malformations and proptest character edits; differential against strict and lenient reference parsers, through from_str directly and through property assignment",
+         "Every position and length of the IPv6 '::' (36 shapes + uncompressed) in lower/upper/mixed case with minimal/padded/mixed digits must be accepted as the constructed address; displayed text assigned back must store the same bytes; texts with a missing/extra/out-of-range group, a second '::', ':::', stray separators or no digits must be rejected with a runtime error and an unchanged packet. Texts between the strict and the lenient reference are don't-care.",
+         "IPv4-embedded IPv6 text, signs, extra leading zeros and '::' for zero groups are don't-care", "DESIGN.md §4 C18"),
+ "C19": ("p2v-inproc", "proptest pcap-file generator x random interleavings of pcap_read_next / pcap_read_all(f[, n]); truncation at every byte offset; header corruption; write round trip; differential against a reference pcap reader",
+         "Generated pcap files (both magics, any snaplen, record sizes placed so that records and record headers straddle the 8 KiB reader buffer) are read by generated scripts; every call result and the file object's header properties are compared with a reference reader. Small files are cut at every byte offset and headers are corrupted: exactly the complete records, then null or an error object, never a crash. Packets copied with pcap_write are parsed back by the reference reader and by p2sh.",
+         "the global header of a written file and reads after the first error object on a corrupted file are don't-care; one open known finding (records above 65535 bytes)", "DESIGN.md §4 C19"),
 }
 
 NOT_APPLICABLE = {
